@@ -256,3 +256,181 @@ def r7(rr, repo):
                 rr.ob(f'unreduce stores the pickled `{name}` unchanged, once', len(st) == 1 and st[0].args[0] == name, mod, st[0].node if st else unr,
                       witness=str([s.args[0][:60] for s in st]), key=f'unreduce-field|{name}|{[s.args[0][:30] for s in st]}')
     rr.floor('field stores examined in unreduce', n, 4, mod, unr)
+
+
+@rule('C10.R8', 'a Frame is born consistent: built on an array it holds that array, the shape of that array and NO encoding (a JPEG is never inherited together with new pixels); built from another Frame it takes '
+                'pixels, encoding and shape from that one frame together; built from a dict it has no image at all; every completed construction sets all four private fields')
+def r8(rr, repo):
+    mod, fn, paths = acc_paths(repo, '__init__')
+    rr.paths += len(paths)
+    params = q.func_params(fn)     # self, image, data, format
+    P_img = params[1]
+    rows = set()
+    for p in paths:
+        if p.outcome is not None and p.outcome[0] == 'raise':
+            continue
+        st = {}
+        for e in p.events:
+            if e.kind == 'store' and e.term.startswith('self._Frame__'):
+                st[e.term[len('self._Frame__'):]] = e
+        miss = {'image', 'data', 'jpg', 'shapef'} - set(st)
+        rr.ob('every completed construction sets image, data, jpg and shapef', not miss, mod, fn, witness=f'missing {sorted(miss)}: {p.pc_text()[:120]}', key='init-complete')
+        if miss:
+            continue
+        isdict = p.facts.get(f'truthy(isinstance({P_img}, dict))')
+        isframe = p.facts.get(f'truthy(isinstance({P_img}, Frame))')
+        img, jpg, shp = st['image'].args[0], st['jpg'].args[0], st['shapef'].args[0]
+        if isdict is True:
+            rows.add('dict')
+            rr.ob('from a dict: no image, no encoding, no shape; the dict is the data', (img, jpg, shp) == ('None', 'None', 'None') and st['data'].args[0] == P_img, mod, st['image'].node, witness=f'{img}, {jpg}, {shp}', key='init-dict')
+        elif isframe is True:
+            rows.add('frame')
+            ok = img == f'{P_img}._Frame__image' and jpg == f'{P_img}._Frame__jpg' and (shp == f'{P_img}._Frame__shapef' or shp.startswith(f'({P_img}._Frame__shapef[0], '))
+            rr.ob('from a Frame: pixels, encoding and pixel shape all come from that same frame (only the format label may be re-declared)', ok, mod, st['image'].node, witness=f'{img} | {jpg} | {shp[:60]}', key='init-frame')
+        elif isdict is False and isframe is False:
+            none = p.facts.get(f'isnone({P_img})')
+            if none is True:
+                rows.add('none')
+                rr.ob('without an image: no encoding and no shape', (img, jpg, shp) == (P_img, 'None', 'None'), mod, st['image'].node, witness=f'{img}, {jpg}, {shp}', key='init-none')
+            elif none is False:
+                rows.add('array')
+                rr.ob('on an array: the frame holds that very array and has NO encoding yet (jpg = False), whatever frame the data or format came from', img == P_img and jpg == 'False', mod, st['jpg'].node,
+                      witness=f'image={img} jpg={jpg}', key='init-array-no-jpg')
+                two = [v for k, v in p.pc if k in (f'eq(2, len({P_img}.shape))', f'eq(len({P_img}.shape), 2)')]
+                if two and two[-1] is True:
+                    rr.ob("a 2-D array is a GRAY frame of that array's shape", shp == f"({P_img}.shape, 'GRAY')", mod, st['shapef'].node, witness=shp, key='init-gray')
+                elif two and two[-1] is False:
+                    three = [v for k, v in p.pc if k in (f'eq(3, {P_img}.shape[2])', f'eq({P_img}.shape[2], 3)')]
+                    rr.ob("a colour frame is a 3-D array with exactly 3 channels, labelled with a validated format, shaped as the array", bool(three) and three[-1] is True and shp.startswith(f'({P_img}.shape, Frame.validate_format'),
+                          mod, st['shapef'].node, witness=shp[:80], key='init-colour')
+                else:
+                    rr.violated('an array frame is given a shape without looking at the number of dimensions of the array', mod, st['shapef'].node, witness=shp[:80], key='init-dims-untested')
+        else:
+            rr.unresolved('Frame.__init__: a path does not decide what kind of source it was given', mod, fn, witness=p.pc_text()[:120], key='init-row')
+    rr.ob('Frame.__init__ distinguishes dict / Frame / no image / array sources', rows >= {'dict', 'frame', 'none', 'array'}, mod, fn, witness=str(sorted(rows)), key='init-rows')
+    # invalid arrays are refused
+    bad = [p for p in paths if p.outcome is not None and p.outcome[0] == 'raise']
+    rr.floor('refusing paths of Frame.__init__', len(bad), 2, mod, fn)
+
+
+def _none_split(p, field):
+    """-> list of (case, expression text) for a returning accessor path: case 'none' / 'value' / 'untested'. Understands both `return None if f is None else v`
+    (one path, conditional value) and an if-statement that forked the path."""
+    o = p.outcome
+    if o is None or o[0] != 'return':
+        return None
+    v = o[1]
+    if v is None:
+        return [('untested', 'None')]
+    none = p.facts.get(f'isnone(self.{field})')
+    if none is not None:
+        return [('none' if none else 'value', U(v))]
+    if isinstance(v, ast.IfExp) and isinstance(v.test, ast.Compare) and len(v.test.ops) == 1 and isinstance(v.test.ops[0], (ast.Is, ast.IsNot)) and \
+            isinstance(v.test.comparators[0], ast.Constant) and v.test.comparators[0].value is None and U(v.test.left) == f'self.{field}':
+        a_, b_ = (v.body, v.orelse) if isinstance(v.test.ops[0], ast.Is) else (v.orelse, v.body)
+        return [('none', U(a_)), ('value', U(b_))]
+    return [('untested', U(v))]
+
+
+@rule('C10.R9', 'the accessors read the state they are named after: shape / height / width / format come from the declared (shape, format) pair - rows first, columns second - and the has_* / is_* '
+                'predicates test the private field they describe (None: no image, False: not there yet)')
+def r9(rr, repo):
+    cls_mod, cls = repo.find(f'{FR}::Frame')
+    n = 0
+    for name, idx in {'shape': '[0]', 'format': '[1]', 'height': '[0][0]', 'width': '[0][1]'}.items():
+        mod, fn, paths = acc_paths(repo, name)
+        rr.paths += len(paths)
+        for p in paths:
+            cases = _none_split(p, '_Frame__shapef')
+            if cases is None:
+                rr.violated(f'Frame.{name} can end without a value', mod, fn, key=f'acc-falls|{name}')
+                continue
+            for case, t in cases:
+                n += 1
+                if case == 'none':
+                    rr.ob(f'Frame.{name}: no image -> None', t == 'None', mod, fn, witness=t, key=f'acc|{name}|none')
+                elif case == 'value':
+                    rr.ob(f'Frame.{name} is element {idx} of the declared (shape, format) pair (numpy shape = (rows, columns[, channels]))', t == f'self._Frame__shapef{idx}', mod, fn, witness=t, key=f'acc|{name}|value')
+                else:
+                    rr.violated(f'Frame.{name} does not ask whether the frame has an image at all', mod, fn, witness=t, key=f'acc|{name}|untested')
+    rr.floor('accessor cases judged', n, 8, cls_mod, cls)
+    preds = {'has_jpg': ('_Frame__jpg', 'False', False), 'has_raw': ('_Frame__image', 'False', False), 'is_gray': ('_Frame__shapef', "'GRAY'", True), 'is_rgb': ('_Frame__shapef', "'RGB'", True), 'is_bgr': ('_Frame__shapef', "'BGR'", True)}
+    for name, (field, lit, positive) in preds.items():
+        mod, fn, paths = acc_paths(repo, name)
+        rr.paths += len(paths)
+        for p in paths:
+            for case, t in (_none_split(p, field) or []):
+                if case == 'none':
+                    rr.ob(f'Frame.{name}: no image -> None', t == 'None', mod, fn, witness=t, key=f'pred|{name}|none')
+                elif case == 'value':
+                    ok = t in (f'self.{field}[1] == {lit}', f'{lit} == self.{field}[1]') if positive else t in (f'self.{field} is not {lit}', f'not self.{field} is {lit}')
+                    rr.ob(f'Frame.{name} tests {field.replace("_Frame__", "")} against {lit}', ok, mod, fn, witness=t, key=f'pred|{name}|value')
+                else:
+                    rr.violated(f'Frame.{name} does not ask whether the frame has an image at all', mod, fn, witness=t, key=f'pred|{name}|untested')
+
+
+@rule('C10.R10', 'a frame hands out ITSELF only when it already is what was asked for: rw -> itself only if writable (or no image), ro -> itself only if read-only / jpg-only (or no image), '
+                 'rgb / bgr / gray -> itself only if it has that format (or none), rw_<fmt> / ro_<fmt> -> itself only with that format AND that mutability; in every other case a different frame is returned')
+def r10(rr, repo):
+    n = 0
+
+    def fmt_fact(p, fmt):
+        """True / False / None: does the path know the frame's format to be `fmt`? ('none' when it knows there is no image)"""
+        if p.facts.get('isnone(self._Frame__shapef)') is True:
+            return 'none'
+        for k, v in p.pc:
+            if k.startswith(f"eq('{fmt}', self._Frame__shapef") and k.endswith(')'):
+                if v is True:
+                    return True
+                res = False
+                # `in (fmt, None)` forks into two eq atoms: a later eq(None, ...) True means "no image"
+                for k2, v2 in p.pc:
+                    if k2.startswith('eq(None, self._Frame__shapef') and v2 is True:
+                        return 'none'
+                return res
+        return None
+
+    def mut_fact(p):
+        """'none' / 'jpg-only' / 'rw' / 'ro' / None"""
+        if p.facts.get('isnone(self._Frame__image)') is True:
+            return 'none'
+        w = None
+        for k, v in p.pc:
+            if k in ('is(False, self._Frame__image)', 'is(self._Frame__image, False)') and v is True:
+                return 'jpg-only'
+            if k in ('truthy(self._Frame__image.flags.writeable)', 'truthy(self.image.flags.writeable)'):
+                w = 'rw' if v else 'ro'
+        return w
+
+    table = {
+        'rw': (None, 'rw'), 'ro': (None, 'ro'),
+        'rgb': ('RGB', None), 'bgr': ('BGR', None), 'gray': ('GRAY', None),
+        'rw_rgb': ('RGB', 'rw'), 'rw_bgr': ('BGR', 'rw'), 'ro_rgb': ('RGB', 'ro'), 'ro_bgr': ('BGR', 'ro'),
+    }
+    for name, (fmt, mut) in table.items():
+        mod, fn, paths = acc_paths(repo, name)
+        rr.paths += len(paths)
+        selfs = 0
+        for p in paths:
+            o = p.outcome
+            if o is None or o[0] != 'return' or o[1] is None:
+                rr.violated(f'Frame.{name} can end without returning a frame', mod, fn, witness=p.pc_text()[-120:], key=f'self|{name}|falls')
+                continue
+            t = U(o[1])
+            f = fmt_fact(p, fmt) if fmt else True
+            m = mut_fact(p)
+            if t == 'self':
+                selfs += 1
+                n += 1
+                ok_f = f in (True, 'none')
+                ok_m = mut is None or f == 'none' or m == 'none' or (mut == 'rw' and m == 'rw') or (mut == 'ro' and m in ('ro', 'jpg-only'))
+                rr.ob(f'Frame.{name} returns itself only when it is known to have {"format " + fmt if fmt else "any format"}{" and be " + ("writable" if mut == "rw" else "read-only / jpg-only") if mut else ""} (or to have no image)',
+                      ok_f and ok_m, mod, fn, witness=f'format known: {f}, mutability known: {m} [{p.pc_text()[-160:]}]', key=f'self|{name}')
+            else:
+                # the other direction for the mutability half: a frame that IS what was asked for need not be copied, but a frame that is NOT must never be returned as is - covered above;
+                # here: whatever is returned instead is not the frame's own cached-for-another-purpose object
+                n += 1
+                ok = t.startswith('Frame(') or t.startswith('getattr(self, ')
+                rr.ob(f'Frame.{name} returns itself, a cached converted view or a newly built Frame', ok, mod, fn, witness=t[:80], key=f'other|{name}')
+        rr.ob(f'Frame.{name} has a path on which the frame itself is good enough', selfs >= 1, mod, fn, key=f'self-exists|{name}')
+    rr.floor('accessor return paths judged', n, 30, *acc_paths(repo, 'rw')[:2])
